@@ -74,6 +74,12 @@ fn module(nfuncs: usize, body_consts: usize) -> Vec<u8> {
         f.instruction(&Instruction::Br(1));
         f.instruction(&Instruction::End);
         f.instruction(&Instruction::End);
+        // an `if` WITHOUT `else` (walrus writes an empty `else` for it: the input's `end` must pair with the output's `end`, not with that `else`)
+        f.instruction(&Instruction::I32Const(1));
+        f.instruction(&Instruction::If(BlockType::Empty));
+        f.instruction(&Instruction::I32Const(2));
+        f.instruction(&Instruction::Drop);
+        f.instruction(&Instruction::End);
         f.instruction(&Instruction::End);
         code.function(&f);
     }
